@@ -344,7 +344,7 @@ def outcome_nodes(sym, ctors):
 
 def strip_q(tokens):
     t = list(tokens)
-    while t and t[-1] == "?":
+    while t and t[-1] in ("?", "$"):
         t.pop()
     return t
 
